@@ -69,26 +69,27 @@ Proof.
 Qed.
 
 (* refusals and shapes *)
-Theorem rebin_plan_spec shape bins : Forall (fun b => 0 < b) bins -> Forall (fun s => 0 <= s) shape ->
-  match rebin_plan shape bins with
-  | Ok PSelf => Forall (fun b => b = 1) bins
+Theorem rebin_plan_spec su shape bins : Forall (fun b => 0 < b) bins -> Forall (fun s => 0 <= s) shape ->
+  match rebin_plan_u su shape bins with
+  | Ok PSelf => Forall (fun b => b = 1) bins /\ su = true /\ length bins = length shape
   | Ok (PBins ns bs) => bs = bins /\ divides_all shape bins /\ zip2z Z.mul ns bins = shape
   | Err _ => length bins <> length shape \/ exists s b, In (s, b) (combine shape bins) /\ s mod b <> 0
   end.
 Proof.
-  intros Hb Hs. unfold rebin_plan.
-  destruct (forallb (Z.eqb 1) bins) eqn:E1.
-  - rewrite forallb_forall in E1. apply Forall_forall. intros b Hin. specialize (E1 b Hin). lia.
-  - destruct (Nat.eqb (length bins) (length shape)) eqn:E2; cbn [negb].
-    + apply Nat.eqb_eq in E2.
-      destruct (existsb _ (combine shape bins)) eqn:E3.
-      * right. apply existsb_exists in E3. destruct E3 as ([s b] & Hin & Hne). exists s, b. split; [assumption|].
-        cbn [fst snd] in Hne. destruct (s mod b =? 0) eqn:E; [discriminate|lia].
-      * assert (Hd : divides_all shape bins).
-        { clear E1. revert bins Hb E2 E3. induction Hs as [|s ss Hs0 Hss IH]; intros [|b bs] Hb E2 E3; cbn [length] in E2; try discriminate; [constructor|].
-          inversion Hb; subst. cbn [combine existsb fst snd] in E3. apply orb_false_iff in E3. destruct E3 as [E3a E3b].
-          constructor; [|apply IH; try assumption; lia].
-          destruct (s mod b =? 0) eqn:E; [|discriminate]. lia. }
-        repeat split; [assumption|]. apply (shape_factor _ _ Hd).
-    + left. apply Nat.eqb_neq in E2. assumption.
+  intros Hb Hs. unfold rebin_plan_u.
+  destruct (Nat.eqb (length bins) (length shape)) eqn:E2; cbn [negb].
+  2:{ left. apply Nat.eqb_neq in E2. assumption. }
+  apply Nat.eqb_eq in E2.
+  destruct (forallb (Z.eqb 1) bins && su) eqn:E1.
+  - apply andb_true_iff in E1. destruct E1 as [E1 ->]. rewrite forallb_forall in E1. repeat split; try assumption.
+    apply Forall_forall. intros b Hin. specialize (E1 b Hin). lia.
+  - clear E1. destruct (existsb _ (combine shape bins)) eqn:E3.
+    + right. apply existsb_exists in E3. destruct E3 as ([s b] & Hin & Hne). exists s, b. split; [assumption|].
+      cbn [fst snd] in Hne. destruct (s mod b =? 0) eqn:E; [discriminate|lia].
+    + assert (Hd : divides_all shape bins).
+      { revert bins Hb E2 E3. induction Hs as [|s ss Hs0 Hss IH]; intros [|b bs] Hb E2 E3; cbn [length] in E2; try discriminate; [constructor|].
+        inversion Hb; subst. cbn [combine existsb fst snd] in E3. apply orb_false_iff in E3. destruct E3 as [E3a E3b].
+        constructor; [|apply IH; try assumption; lia].
+        destruct (s mod b =? 0) eqn:E; [|discriminate]. lia. }
+      repeat split; [assumption|]. apply (shape_factor _ _ Hd).
 Qed.
